@@ -387,6 +387,8 @@ func runCheck(o checkOpts) (int, *checkOutcome) {
 	var samples []any
 	var failedNames []string
 	var solverMs int64
+	var slowestMs int64 // slowest single solver query of this run (sums over paths are not single queries)
+	slowestName := ""
 	bySolver := map[string]int{}
 	replayDir := filepath.Join(verifDir, "replays", o.prop)
 	knownSeen := map[string]bool{}
@@ -396,6 +398,14 @@ func runCheck(o checkOpts) (int, *checkOutcome) {
 	for i, r := range results {
 		ob := obls[i]
 		solverMs += r.Ms
+		if q := maxI64(r.MaxMs, func() int64 {
+			if strings.Contains(r.Solver, "per path") {
+				return 0
+			}
+			return r.Ms
+		}()); q > slowestMs && r.Kind != "cover" {
+			slowestMs, slowestName = q, r.Name
+		}
 		ok := false
 		if r.Kind == "cover" {
 			// vacuity guard: only a definite "unsat" (contradictory precondition) is a failure; quantified
@@ -443,10 +453,10 @@ func runCheck(o checkOpts) (int, *checkOutcome) {
 			fmt.Printf("VIOLATION property=%s replay=%s obligation=%q status=%s%s\n", o.prop, rp, r.Name, r.Status, suffix)
 		}
 		if len(samples) < 12 || !ok {
-			samples = append(samples, map[string]any{"obligation": r.Name, "kind": r.Kind, "status": r.Status, "solver": r.Solver, "ms": r.Ms, "paths": r.Paths, "clause": ob.clause, "smt_bytes": r.Bytes})
+			samples = append(samples, map[string]any{"obligation": r.Name, "kind": r.Kind, "status": r.Status, "solver": r.Solver, "ms": r.Ms, "paths": r.Paths, "clause": ob.clause, "smt_bytes": r.Bytes, "max_query_ms": r.MaxMs})
 		}
 		if o.verbose {
-			fmt.Fprintf(os.Stderr, "  %-8s %-10s %5dms %s\n", r.Status, r.Solver, r.Ms, r.Name)
+			fmt.Fprintf(os.Stderr, "  %-8s %-10s %5dms (max %dms) %s\n", r.Status, r.Solver, r.Ms, r.MaxMs, r.Name)
 		}
 		if _, isK := known[r.Name]; isK {
 			knownSeen[r.Name] = true
@@ -516,6 +526,9 @@ func runCheck(o checkOpts) (int, *checkOutcome) {
 			"callees_by_contract": trustedContracts,
 			"discharged_by_solver": bySolver,
 			"solver_ms_total":    solverMs,
+			"slowest_query_ms":   slowestMs,
+			"slowest_query":      slowestName,
+			"query_time_limit_s": timeout,
 			"failed_obligations": failedNames,
 			"notes":              sortedSet(x.notes),
 			"not_covered":        cfg.NotCovered,
@@ -592,4 +605,11 @@ func trunc(s string, n int) string {
 
 func (x *Exec) tryReplay(prop string, cfg *PropCfg, r *SolveResult, ob *Oblig, rep map[string]any) bool {
 	return false
+}
+
+func maxI64(a, b int64) int64 {
+	if a > b {
+		return a
+	}
+	return b
 }
